@@ -837,13 +837,21 @@ AMapErrRet ==
 (* or the pending error left by the failure.                               *)
 
 MemoHas(k) == k \in DOMAIN memo
+(* In a statically typed parser tree (no Box between nodes) distinct memoized parsers can have the SAME       *)
+(* address: a memoized parser that is the first field of the parser wrapped by an outer memoized(), zero-sized *)
+(* siblings.  Which ones collide depends on the struct layout, so the defect branch of site "memo_alias" (C11,  *)
+(* same root cause as "memo_nested") takes an arbitrary partition of the memoized sub-grammars, fixed in Init   *)
+(* (st.alias maps each to the representative of its class), and keys the table by class.                        *)
+StaticKinds == {"static", "staticc"}
+AliasOn == "memo_alias" \in DOMAIN kf /\ kf["memo_alias"] = "on"
+MemoKey(f, c) == IF AliasOn THEN <<c, st.alias[f.g]>> ELSE <<c, f.path>>
 (* The real key is (position, ADDRESS of the wrapped parser).  For `p.memoized().memoized()` the *)
 (* inner Memoized is the first field of the outer one, so both compute the same address: the    *)
 (* inner lookup finds the outer's in-progress marker and fails as if it were left recursion:    *)
 (* deviation site "memo_nested" (C11).  The correct branch uses the node identity.              *)
 DirectlyNestedMemo == Len(stack) >= 2 /\ Op(stack[Len(stack) - 1].g) = "memo" /\ stack[Len(stack) - 1].pc = 1
 MemoLookup(f) ==
-  LET k == <<cur, f.path>>
+  LET k == MemoKey(f, cur)
       sp == SpanOf(cur, cur)
   IN IF MemoHas(k)
      THEN /\ IF memo[k].some
@@ -867,7 +875,7 @@ AMemoStart ==
 AMemoRet ==
   /\ Resuming({"memo"}, 1)
   /\ LET f == Top
-         k == <<f.cp.cur, f.path>>
+         k == MemoKey(f, f.cp.cur)
      IN /\ RetX([ret EXCEPT !.fr = NoFrame], cur, sec, insp, alt)
         /\ memo' = IF ret.ok THEN [x \in DOMAIN memo \ {k} |-> memo[x]] ELSE [memo EXCEPT ![k] = alt]
         /\ UNCHANGED <<cid, kf, obs, result>>
@@ -1158,7 +1166,7 @@ ANextParse ==
   /\ ret' = NoRet
   /\ cur' = 0 /\ alt' = NoAlt /\ sec' = <<>> /\ insp' = 0
   /\ memo' = <<>>
-  /\ st' = [done |-> FALSE, panicked |-> FALSE, steps |-> 0, leaked |-> 0, run |-> st.run + 1, past |-> Append(st.past, result)]
+  /\ st' = [done |-> FALSE, panicked |-> FALSE, steps |-> 0, leaked |-> 0, run |-> st.run + 1, past |-> Append(st.past, result), alias |-> st.alias]
   /\ obs' = <<>>
   /\ result' = NoResult
   /\ UNCHANGED <<cid, kf>>
@@ -1172,8 +1180,13 @@ Init ==
   /\ cur = 0 /\ alt = NoAlt /\ sec = <<>> /\ insp = 0
   /\ memo = <<>>
   /\ kf \in (IF "mapped_span" \in KFSites /\ Cases[cid].kind \in GappedKinds
-             THEN {<<>>, "mapped_span" :> "on"} ELSE {<<>>})
-  /\ st = [done |-> FALSE, panicked |-> FALSE, steps |-> 0, leaked |-> 0, run |-> 0, past |-> <<>>]
+             THEN {<<>>, "mapped_span" :> "on"}
+             ELSE IF "memo_alias" \in KFSites /\ Cases[cid].kind \in StaticKinds /\ Cardinality(MemoSub(Cases[cid].g)) >= 2
+             THEN {<<>>, "memo_alias" :> "on"} ELSE {<<>>})
+  /\ st \in {[done |-> FALSE, panicked |-> FALSE, steps |-> 0, leaked |-> 0, run |-> 0, past |-> <<>>, alias |-> a] :
+              a \in (IF "memo_alias" \in DOMAIN kf
+                     THEN LET M == MemoSub(Cases[cid].g) IN {h \in [M -> M] : (\A x \in M : h[h[x]] = h[x]) /\ (\E x \in M : h[x] # x)}
+                     ELSE {<<>>})}
   /\ obs = <<>>
   /\ result = NoResult
 
